@@ -16,6 +16,9 @@
 //!   s<word>         expand with `Shell::basic_expand_string`          -> `OK f` | `ERR`
 //!   r<script>       run the script, then report: `RC <n>|ERR ;A <args…> ;Y <S val|U> ;R <elems…>`
 //!                   (positional parameters, scalar `y`, indexed array `r` after the run)
+//! A request that is the single field `y<word>` is the word-parser tie: `brush_parser::word::parse(word, default options)`
+//!   -> `OK <piece>…` | `ERR`; piece = `<tag> <start> <end> <payload>` (T text, Q single quoted, E escape, C command, A arithmetic,
+//!   H tilde, P parameter, O `${p OP w}`, X anything else) or `D <start> <end> [ <piece>… ]`.
 use std::collections::BTreeMap;
 use std::panic::AssertUnwindSafe;
 use brush_core::variables::{ShellValue, ShellVariable};
@@ -171,12 +174,115 @@ async fn act(shell: &mut vh::Sh, mode: char, text: &str) -> String {
     }
 }
 
+// ---- word parser tie (`y<word>`): brush_parser::word::parse with the default options, canonical piece list
+fn wp_param(p: &brush_parser::word::Parameter) -> Option<String> {
+    use brush_parser::word::{Parameter as P, SpecialParameter as S};
+    Some(match p {
+        P::Positional(k) => format!("p{k}"),
+        P::Named(n) => format!("n{n}"),
+        P::Special(sp) => format!("s{}", match sp {
+            S::AllPositionalParameters { concatenate: false } => '@',
+            S::AllPositionalParameters { concatenate: true } => '*',
+            S::PositionalParameterCount => '#',
+            S::LastExitStatus => '?',
+            S::CurrentOptionFlags => '-',
+            S::ProcessId => '$',
+            S::LastBackgroundProcessId => '!',
+            S::ShellName => '0',
+        }),
+        _ => return None,
+    })
+}
+
+fn wp_atom(tag: char, s: usize, e: usize, payload: &str) -> String {
+    format!("{tag} {s} {e} {}", esc(payload))
+}
+
+fn wp_piece(p: &brush_parser::word::WordPieceWithSource, nested: bool) -> String {
+    use brush_parser::word::{ParameterExpr as X, ParameterTestType as TT, TildeExpr as H, WordPiece as W};
+    let (s, e) = (p.start_index, p.end_index);
+    let other = |what: &str| wp_atom('X', s, e, what);
+    let op = |parameter, indirect: &bool, colon: Option<&TT>, o: &str, w: &Option<String>| -> String {
+        let c = match colon { Some(TT::UnsetOrNull) => ':', _ => '.' };
+        match (wp_param(parameter), indirect, w) {
+            (Some(ps), false, Some(w)) => wp_atom('O', s, e, &format!("{ps}|{c}{o}|{w}")),
+            _ => other("paramop"),
+        }
+    };
+    match &p.piece {
+        W::Text(t) => wp_atom('T', s, e, t),
+        W::SingleQuotedText(t) => wp_atom('Q', s, e, t),
+        W::EscapeSequence(t) => wp_atom('E', s, e, t),
+        W::CommandSubstitution(t) => wp_atom('C', s, e, t),
+        W::ArithmeticExpression(a) => wp_atom('A', s, e, &a.value),
+        W::TildeExpansion(t) => wp_atom('H', s, e, &match t {
+            H::Home => "home".to_string(),
+            H::WorkingDir => "pwd".to_string(),
+            H::OldWorkingDir => "oldpwd".to_string(),
+            H::UserHome(u) => format!("user:{u}"),
+            H::NthDirFromTopOfDirStack { n, plus_used } => format!("top:{n}:{}", if *plus_used { '+' } else { '.' }),
+            H::NthDirFromBottomOfDirStack { n } => format!("bot:{n}"),
+        }),
+        W::DoubleQuotedSequence(inner) if !nested => {
+            let mut o = format!("D {s} {e} [");
+            for q in inner {
+                o.push(' ');
+                o.push_str(&wp_piece(q, true));
+            }
+            o.push_str(" ]");
+            o
+        }
+        W::ParameterExpansion(x) => match x {
+            X::Parameter { parameter, indirect: false } => match wp_param(parameter) {
+                Some(ps) => wp_atom('P', s, e, &ps),
+                None => other("param"),
+            },
+            X::UseDefaultValues { parameter, indirect, test_type, default_value } =>
+                op(parameter, indirect, Some(test_type), "-", default_value),
+            X::AssignDefaultValues { parameter, indirect, test_type, default_value } =>
+                op(parameter, indirect, Some(test_type), "=", default_value),
+            X::IndicateErrorIfNullOrUnset { parameter, indirect, test_type, error_message } =>
+                op(parameter, indirect, Some(test_type), "?", error_message),
+            X::UseAlternativeValue { parameter, indirect, test_type, alternative_value } =>
+                op(parameter, indirect, Some(test_type), "+", alternative_value),
+            X::RemoveSmallestSuffixPattern { parameter, indirect, pattern } => op(parameter, indirect, None, "%", pattern),
+            X::RemoveLargestSuffixPattern { parameter, indirect, pattern } => op(parameter, indirect, None, "%%", pattern),
+            X::RemoveSmallestPrefixPattern { parameter, indirect, pattern } => op(parameter, indirect, None, "#", pattern),
+            X::RemoveLargestPrefixPattern { parameter, indirect, pattern } => op(parameter, indirect, None, "##", pattern),
+            _ => other("paramexpr"),
+        },
+        _ => other("piece"),
+    }
+}
+
+fn word_pieces(word: &str) -> String {
+    match brush_parser::word::parse(word, &brush_parser::ParserOptions::default()) {
+        Ok(ps) => {
+            let mut o = String::from("OK");
+            for p in &ps {
+                o.push(' ');
+                o.push_str(&wp_piece(p, false));
+            }
+            o
+        }
+        Err(_) => "ERR".to_string(),
+    }
+}
+
 fn main() {
     std::panic::set_hook(Box::new(|_| {}));
     let rt = tokio::runtime::Builder::new_multi_thread().worker_threads(2).enable_all().build().unwrap();
     let base = rt.block_on(base_shell());
     for line in vh::lines() {
         let f = fields(&line);
+        if f.len() == 1 && f[0].starts_with('y') {
+            let w = f[0][1..].to_string();
+            match std::panic::catch_unwind(|| word_pieces(&w)) {
+                Ok(s) => println!("{s}"),
+                Err(_) => println!("PANIC"),
+            }
+            continue;
+        }
         let res = std::panic::catch_unwind(AssertUnwindSafe(|| rt.block_on(one(&base, &f))));
         match res {
             Ok(s) => println!("{s}"),
